@@ -44,4 +44,58 @@ theorem processBlockSingle_cases (p : Params) (n : Node) (b : Blk) :
       · rename_i s' hc
         right; exact ⟨n1, par, s', hh, hpre, hc, rfl⟩
 
+/-! ## Definitions never change; everything derived from them is a function of `outs`/`blks` -/
+
+theorem blk_congr {n m : Node} (h : n.blks = m.blks) (id : Nat) : n.blk id = m.blk id := by
+  simp [Node.blk, h]
+
+theorem blk_id {n : Node} {id : Nat} {b : Blk} (h : n.blk id = some b) : b.id = id := by
+  unfold Node.blk at h
+  have := List.find?_some h
+  simpa using this
+
+theorem blk_mem {n : Node} {id : Nat} {b : Blk} (h : n.blk id = some b) : b ∈ n.blks := by
+  unfold Node.blk at h
+  exact List.mem_of_find?_eq_some h
+
+theorem workOf_congr {n m : Node} (h : n.blks = m.blks) (id : Nat) : n.workOf id = m.workOf id := by
+  simp [Node.workOf, blk_congr h]
+
+theorem heightOf_congr {n m : Node} (h : n.blks = m.blks) (id : Nat) : n.heightOf id = m.heightOf id := by
+  simp [Node.heightOf, blk_congr h]
+
+theorem parentOf_congr {n m : Node} (h : n.blks = m.blks) (id : Nat) : n.parentOf id = m.parentOf id := by
+  simp [Node.parentOf, blk_congr h]
+
+theorem pathTo_congr {n m : Node} (h : n.blks = m.blks) :
+    ∀ (fuel id : Nat) (acc : List Blk), pathTo n fuel id acc = pathTo m fuel id acc := by
+  intro fuel
+  induction fuel with
+  | zero => intros; rfl
+  | succ k ih =>
+    intro id acc
+    simp only [pathTo, blk_congr h]
+    split
+    · rfl
+    · split
+      · rfl
+      · exact ih _ _
+
+theorem path_congr {n m : Node} (h : n.blks = m.blks) (id : Nat) : n.path id = m.path id := by
+  simp [Node.path, pathTo_congr h, h]
+
+theorem stateAt_congr {n m : Node} (h : n.blks = m.blks) (p : Params) (id : Nat) :
+    n.stateAt p id = m.stateAt p id := by
+  simp [Node.stateAt, path_congr h]
+
+/-- validity is path-determined: `checkBlock` reads only the output and block definitions -/
+theorem checkBlock_congr {n m : Node} (ho : n.outs = m.outs) (h : n.blks = m.blks) (p : Params)
+    (b : Blk) (par : Nat) : checkBlock p n b par = checkBlock p m b par := by
+  simp [checkBlock, stateAt_congr h, ho]
+
+theorem reportedUtxo_congr {n m : Node} (h : n.blks = m.blks) (hh : n.head = m.head) (p : Params) :
+    n.reportedUtxo p = m.reportedUtxo p := by
+  simp [Node.reportedUtxo, stateAt_congr h, hh]
+
+
 end GV.Chain
